@@ -41,15 +41,15 @@ CE == [k |-> "C"]
 ZE == [k |-> "Z"]
 Row(id, es) == [k |-> "row", line |-> id, entries |-> es]
 
-Header == <<"CLK", "A", "Q", "V">>
+Header4 == <<"CLK", "A", "Q", "V">>
+Header3 == <<"CLK", "A", "Q">>
 Supplied0 ==
   << [name |-> "Q", bits |-> 4, dir |-> "out", def |-> VX, vexpr |-> N(0)],
      [name |-> "CLK", bits |-> 1, dir |-> "in", def |-> Num(W0), vexpr |-> N(0)],
      [name |-> "D", bits |-> 4, dir |-> "bidir", def |-> VZ, vexpr |-> N(0)],
      [name |-> "A", bits |-> 2, dir |-> "in", def |-> Num(W1), vexpr |-> N(0)],
      [name |-> "R", bits |-> 4, dir |-> "out", def |-> VX, vexpr |-> N(0)] >>
-Decls == << [name |-> "V", e |-> Bin("+", Id("R"), N(1))] >>
-Signals == AllSignals(Supplied0, Decls)
+DeclV == << [name |-> "V", e |-> Bin("+", Id("R"), N(1))] >>
 
 \* schema programs; entries are for CLK, A, Q (expected), V (expected of the virtual signal)
 Schema ==
@@ -76,7 +76,13 @@ Schema ==
      << [k |-> "let", name |-> "R", e |-> N(2)], Row(1, <<N(0), Ex(Id("R")), Ex(Id("R")), Ex(Id("R"))>>),
         Row(2, <<ZE, N(0), ZE, XE>>) >>,
      \* 10 reads R, which may be high-Z
-     << Row(1, <<N(0), N(0), XE, XE>>), Row(2, <<N(0), Ex(Id("R")), XE, XE>>) >> >>
+     << Row(1, <<N(0), N(0), XE, XE>>), Row(2, <<N(0), Ex(Id("R")), XE, XE>>) >>,
+     \* 11, 12 no virtual signal and no device read: every layout is acceptable, also one with a single output
+     << Row(1, <<N(0), N(1), N(1)>>), Row(2, <<CE, XE, N(2)>>) >>,
+     << [k |-> "loop", var |-> "i", max |-> N(2), body |-> <<Row(1, <<N(0), Ex(Id("i")), Ex(Id("i"))>>)>>] >> >>
+
+HeaderOf(p) == IF p >= 11 THEN Header3 ELSE Header4
+DeclsOf(p) == IF p >= 11 THEN <<>> ELSE DeclV
 
 Layouts == { <<"Q", "R">>, <<"R", "Q">>, <<"R", "D", "Q">>, <<"Q">>, <<"R">> }
 
@@ -105,7 +111,8 @@ Deviate(outs, f) ==
 VARIABLES pi, layout, ownWrite, fault, it, ctor, hist, calls, script, phase
 vars == <<pi, layout, ownWrite, fault, it, ctor, hist, calls, script, phase>>
 
-Ct == Compile(Header, Signals, Schema[pi], Decls, ownWrite)
+CtOf(p, ow) == Compile(HeaderOf(p), AllSignals(Supplied0, DeclsOf(p)), Schema[p], DeclsOf(p), ow)
+Ct == CtOf(pi, ownWrite)
 RS == [mode |-> "gen", g |-> <<>>]
 
 \* the answers the environment may give to call number idx (0 = constructor)
@@ -121,13 +128,13 @@ Init ==
   /\ ownWrite \in BOOLEAN
   /\ fault \in Faults
   /\ \E a \in AnswersAt(0) :
-       LET fin == CtorFinish(Compile(Header, Signals, Schema[pi], Decls, ownWrite), a)
+       LET fin == CtorFinish(CtOf(pi, ownWrite), a)
        IN  /\ ctor = fin.res
-           /\ it = IF fin.res = "ok" THEN fin.it ELSE NewIt(Compile(Header, Signals, Schema[pi], Decls, ownWrite))
+           /\ it = IF fin.res = "ok" THEN fin.it ELSE NewIt(CtOf(pi, ownWrite))
            /\ script = <<a>>
            /\ phase = IF fin.res = "ok" THEN "idle" ELSE "done"
   /\ hist = <<>>
-  /\ calls = <<CtorCall(Compile(Header, Signals, Schema[pi], Decls, ownWrite))>>
+  /\ calls = <<CtorCall(CtOf(pi, ownWrite))>>
 
 Next ==
   /\ phase = "idle"
@@ -213,7 +220,7 @@ Fresh == (ctor = "ok" /\ phase = "idle") => it.outs = script[LastChecked].outs
 \* C04: the constructor fails exactly when the program reads an output the driver does not supply
 CtorRule ==
   script[1].k = "ok" =>
-     (ctor = "ok" <=> Reads(Schema[pi], Decls) \subseteq {script[1].outs[k].s : k \in DOMAIN script[1].outs})
+     (ctor = "ok" <=> Reads(Schema[pi], DeclsOf(pi)) \subseteq {script[1].outs[k].s : k \in DOMAIN script[1].outs})
 
 \* C14
 Virtual ==
@@ -238,7 +245,7 @@ DeviationIsError ==
 Done == phase = "done" \/ Len(hist) >= MaxRows
 PrintBehaviour ==
   (EmitReplay /\ Done) =>
-     PrintT(<<"REPLAY", ToJson([header |-> Header, signals |-> Supplied0, decls |-> Decls, prog |-> Schema[pi],
+     PrintT(<<"REPLAY", ToJson([header |-> HeaderOf(pi), signals |-> Supplied0, decls |-> DeclsOf(pi), prog |-> Schema[pi],
                                  own_write |-> ownWrite, ctor |-> ctor, script |-> script,
                                  calls |-> [k \in DOMAIN calls |-> [kind |-> calls[k].kind, inputs |-> StripCh(calls[k].inputs)]],
                                  items |-> [k \in DOMAIN hist |->
